@@ -4,6 +4,11 @@ import BqVerif.Proofs.CircHistory
 import BqVerif.Proofs.Trace
 import BqVerif.Proofs.CircRel
 import BqVerif.Proofs.CircWhole
+import BqVerif.Proofs.CircReplace
+import BqVerif.Proofs.CircBatch
+import BqVerif.Proofs.CircSem
+import BqVerif.Proofs.CircUnfoldSem
+import BqVerif.Proofs.CircUnfoldAll
 /-! # C04 — Circuit editing calls have their documented effect on program order -/
 namespace BqVerif.C04
 open BqVerif.Circ
@@ -110,5 +115,281 @@ theorem C04_history_inv (radixes : List Nat) (h : List Call) (hok : ∀ call ∈
 example :
     let c : Circ := ⟨[2, 2], [[⟨6, [], [0, 1], [2, 2]⟩], [⟨4, [7], [1], [2]⟩]]⟩
     (0 < c.numCycles) ∧ c.invB = true ∧ c.cell 1 1 = some ⟨4, [7], [1], [2]⟩ := by decide
+
+/-- **replace**, general branch (the new operation's location set differs from the old one's:
+the code pops the old operation and inserts the new one at the NORMALISED original cycle index
+`k`).  For every qudit `q`, with `pre`/`post` the qudit's operations in the cycles before/after
+`k` and `mid` those of cycle `k` other than the replaced one:
+`before = pre ++ [old if on q] ++ mid ++ post` and `after = pre ++ [new if on q] ++ mid ++ post`
+(and `mid = []` when `old` is on `q`).  The call succeeds. -/
+theorem C04_replace_general_timeline (c : Circ) (hinv : c.Inv) (p : Int × Int) (o : Op)
+    (k q0 : Nat) (old : Op) (hg : c.getOp p = .ok (k, q0, old))
+    (hd : disjointL old.loc o.loc = false) (hs : sameSet old.loc o.loc = false)
+    (hv : c.checkValid o = .ok ()) (q : Nat) :
+    ∃ hlt : k < c.cycles.length,
+    (c.replace p o).2 = .ok () ∧
+    c.timeline q = proj q (c.cycles.take k).flatten ++ (if old.on q then [old] else []) ++
+      proj q (c.cycles[k].filter (fun x => !x.on q0)) ++ proj q (c.cycles.drop (k + 1)).flatten ∧
+    (c.replace p o).1.timeline q =
+      proj q (c.cycles.take k).flatten ++ (if o.on q then [o] else []) ++
+      proj q (c.cycles[k].filter (fun x => !x.on q0)) ++ proj q (c.cycles.drop (k + 1)).flatten ∧
+    (old.on q = true → proj q (c.cycles[k].filter (fun x => !x.on q0)) = []) :=
+  replace_general_timeline c hinv p o k q0 old hg hd hs hv q
+
+/-- Corollaries: on a qudit shared by the old and the new operation the new one stands exactly
+where the old one stood; a qudit touched by neither keeps its timeline. -/
+theorem C04_replace_general_shared_and_untouched (c : Circ) (hinv : c.Inv) (p : Int × Int)
+    (o : Op) (k q0 : Nat) (old : Op) (hg : c.getOp p = .ok (k, q0, old))
+    (hd : disjointL old.loc o.loc = false) (hs : sameSet old.loc o.loc = false)
+    (hv : c.checkValid o = .ok ()) (q : Nat) :
+    (q ∈ old.loc → q ∈ o.loc → ∃ pre post, c.timeline q = pre ++ old :: post ∧
+      (c.replace p o).1.timeline q = pre ++ o :: post) ∧
+    (q ∉ old.loc → q ∉ o.loc → (c.replace p o).1.timeline q = c.timeline q) := by
+  obtain ⟨hlt, _, hb, ha, hm⟩ := replace_general_timeline c hinv p o k q0 old hg hd hs hv q
+  constructor
+  · intro h1 h2
+    have h1' : old.on q = true := by simpa [Op.on] using h1
+    have h2' : o.on q = true := by simpa [Op.on] using h2
+    refine ⟨proj q (c.cycles.take k).flatten, proj q (c.cycles.drop (k + 1)).flatten, ?_, ?_⟩
+    · rw [hb, hm h1']; simp [h1']
+    · rw [ha, hm h1']; simp [h2']
+  · intro h1 h2
+    have h1' : old.on q = false := by simpa [Op.on] using h1
+    have h2' : o.on q = false := by simpa [Op.on] using h2
+    rw [ha, hb]; simp [h1', h2']
+
+-- non-vacuity: replacing the CNOT@(0,1) of cycle 1 by a gate on (1,2) (general branch)
+example :
+    let c : Circ := ⟨[2, 2, 2], [[⟨1, [], [0], [2]⟩], [⟨6, [], [0, 1], [2, 2]⟩], [⟨2, [], [1], [2]⟩]]⟩
+    let old : Op := ⟨6, [], [0, 1], [2, 2]⟩
+    let o : Op := ⟨7, [], [1, 2], [2, 2]⟩
+    c.invB = true ∧ c.getOp (-2, 1) = .ok (1, 1, old) ∧ disjointL old.loc o.loc = false ∧
+      sameSet old.loc o.loc = false ∧ c.checkValid o = .ok () ∧
+      (c.replace (-2, 1) o).1.cycles = [[⟨1, [], [0], [2]⟩], [o], [⟨2, [], [1], [2]⟩]] := by decide
+
+/-- **batch_replace, all replacements in place** (every item addresses an operation whose
+location set equals that of the item's new operation): the call succeeds and is a POINTWISE
+SUBSTITUTION `σ` — the grid is stable: same number of cycles, cycle `k` is the old cycle `k` with
+every operation `x` replaced by `σ k x` in the same position, every cell `(k, q)` holds `σ k` of
+what it held, and `σ` keeps location sets.  `σ = substAll` of the normalised items sorted by
+cycle: an operation addressed by no item is untouched, an addressed one becomes the operation of
+the last item (in sorted order) that addresses it. -/
+theorem C04_batch_replace_same_loc (c : Circ) (hinv : c.Inv) (items0 : List ((Int × Int) × Op))
+    (hr : items0.all (fun it => c.cycleInRange it.1.1 && c.qubitInRange it.1.2) = true)
+    (hin : ∀ it ∈ items0, ∃ old,
+      c.cell (normIdx c.numCycles it.1.1) (normIdx c.numQudits it.1.2) = some old ∧
+        sameSet old.loc it.2.loc = true) :
+    let σ := substAll (sortItems (normItems c items0))
+    let c' := (c.batchReplace items0).1
+    (c.batchReplace items0).2 = .ok () ∧ c'.radixes = c.radixes ∧
+      c'.cycles.length = c.cycles.length ∧
+      (∀ k (h : k < c.cycles.length) (h' : k < c'.cycles.length),
+        c'.cycles[k] = c.cycles[k].map (σ k)) ∧
+      (∀ k q, c'.cell k q = (c.cell k q).map (σ k)) ∧
+      (∀ k (h : k < c.cycles.length), ∀ x ∈ c.cycles[k], ∀ q, q ∈ (σ k x).loc ↔ q ∈ x.loc) := by
+  intro σ c'
+  obtain ⟨h1, h2⟩ := batchReplace_same_loc c hinv items0 hr hin
+  have hc' : c' = mapCirc c σ := by simp only [c', h1]; rfl
+  refine ⟨by rw [h1], by rw [hc']; rfl, by rw [hc']; exact mapCirc_length c σ, ?_, ?_, h2⟩
+  · intro k h h'
+    have := mapCirc_getElem c σ k h
+    simp only [hc']; exact this
+  · intro k q; rw [hc']; exact mapCirc_cell c σ h2 k q
+
+/-- what the substitution does to one operation -/
+theorem C04_batch_replace_subst (its : List ((Int × Int) × Op)) (k : Nat) (x : Op) :
+    ((∀ it ∈ its, ¬ Addr it k x) → substAll its k x = x) ∧
+    (∀ pre post it, its = pre ++ it :: post → Addr it k x → (∀ it' ∈ post, ¬ Addr it' k x) →
+      substAll its k x = it.2) :=
+  ⟨substAll_none its k x, fun pre post it he ha h => he ▸ substAll_last pre post it k x ha h⟩
+
+-- non-vacuity: two in-place replacements (given out of order, one with a negative index)
+example :
+    let c : Circ := ⟨[2, 2], [[⟨1, [], [0], [2]⟩], [⟨6, [], [0, 1], [2, 2]⟩], [⟨2, [], [1], [2]⟩]]⟩
+    let items : List ((Int × Int) × Op) :=
+      [((-1, 1), ⟨3, [], [1], [2]⟩), ((1, 0), ⟨8, [], [1, 0], [2, 2]⟩)]
+    c.invB = true ∧
+      items.all (fun it => c.cycleInRange it.1.1 && c.qubitInRange it.1.2) = true ∧
+      (items.all fun it =>
+        match c.cell (normIdx c.numCycles it.1.1) (normIdx c.numQudits it.1.2) with
+        | some old => sameSet old.loc it.2.loc
+        | none => false) = true ∧
+      (c.batchReplace items).1.cycles =
+        [[⟨1, [], [0], [2]⟩], [⟨8, [], [1, 0], [2, 2]⟩], [⟨3, [], [1], [2]⟩]] := by decide
+
+/-- **S2, relabelling conjugates the unitary** (list level): in any monoid semantics with a
+relabelling action `act` (think `U ↦ P U P†` for the qudit permutation matrix `P`) that is a monoid
+homomorphism and commutes with the gate semantics, the relabelled operation sequence denotes the
+action on the original denotation. -/
+theorem C04_renumber_conjugates {M : Type} [Monoid M] (sem : Op → M) (act : M → M)
+    (h1 : act 1 = 1) (hmul : ∀ a b, act (a * b) = act a * act b) (ρ : Nat → Nat)
+    (hsem : ∀ o, sem (o.relabel ρ) = act (sem o)) (l : List Op) :
+    den sem (l.map (Op.relabel ρ)) = act (den sem l) :=
+  den_map_relabel sem act h1 hmul ρ hsem l
+
+/-- … and for the call itself: `renumber_qudits(perm)` with a valid permutation succeeds and the
+new circuit — in the order ITS iterator picks, which differs from the relabelled old order —
+denotes `act` of the old denotation (`permFun` is `perm` as a function, identity above the width). -/
+theorem C04_renumber_qudits_conjugates {M : Type} [Monoid M] (sem : Op → M)
+    (hcomm : ∀ a b, Indep a b → sem a * sem b = sem b * sem a) (act : M → M) (h1 : act 1 = 1)
+    (hmul : ∀ a b, act (a * b) = act a * act b) (c : Circ) (perm : List Nat) (hinv : c.Inv)
+    (hok : permOk c.numQudits perm = true)
+    (hsem : ∀ o, sem (o.relabel (permFun c.numQudits perm)) = act (sem o)) :
+    (c.renumber perm).2 = .ok () ∧
+      den sem (c.renumber perm).1.iter = act (den sem c.iter) :=
+  renumber_conjugates sem hcomm act h1 hmul c perm hinv hok hsem
+
+/-- … and `insert_qudit(k, radix)` (the branch shifting the qudits from `k` on): the new circuit
+denotes `act` of the old denotation for the shift relabelling. -/
+theorem C04_insert_qudit_conjugates {M : Type} [Monoid M] (sem : Op → M)
+    (hcomm : ∀ a b, Indep a b → sem a * sem b = sem b * sem a) (act : M → M) (h1 : act 1 = 1)
+    (hmul : ∀ a b, act (a * b) = act a * act b) (c : Circ) (qi r : Int) (hinv : c.Inv)
+    (hr : ¬ r < 2) (hq : ¬ qi ≥ (c.numQudits : Int))
+    (hsem : ∀ o, sem (o.relabel (fun q =>
+      if q < (if qi ≤ -(c.numQudits : Int) then 0 else normIdx c.numQudits qi) then q else q + 1)) =
+        act (sem o)) :
+    den sem (c.insertQudit qi r).1.iter = act (den sem c.iter) :=
+  insertQudit_conjugates sem hcomm act h1 hmul c qi r hinv hr hq hsem
+
+-- non-vacuity: the hypotheses on (sem, act) are satisfiable in every monoid; a valid permutation
+example {M : Type} [Monoid M] :
+    let sem : Op → M := fun _ => 1
+    let act : M → M := id
+    (∀ a b, Indep a b → sem a * sem b = sem b * sem a) ∧ act 1 = 1 ∧
+      (∀ a b, act (a * b) = act a * act b) ∧ ∀ ρ o, sem (o.relabel ρ) = act (sem o) :=
+  ⟨fun _ _ _ => rfl, rfl, fun _ _ => rfl, fun _ _ => rfl⟩
+example :
+    let c : Circ := ⟨[2, 3], [[⟨6, [], [0, 1], [2, 3]⟩], [⟨4, [7], [1], [3]⟩]]⟩
+    c.invB = true ∧ permOk c.numQudits [1, 0] = true ∧
+      (c.renumber [1, 0]).1 = ⟨[3, 2], [[⟨6, [], [1, 0], [2, 3]⟩], [⟨4, [7], [0], [3]⟩]]⟩ := by decide
+
+/-- **S3, flattening keeps the unitary** (list level): in any semantics that reads a block
+operation as the ordered product of its expansion (body in iteration order, parameters distributed
+as `set_params` does, relabelled through the block's location), expanding blocks to any depth
+keeps the denotation. -/
+theorem C04_flatten_same_unitary {M : Type} [Monoid M] (sem : Op → M) (b : Blocks)
+    (hblock : ∀ o inner, expandOp b o = some inner → sem o = den sem inner)
+    (fuel : Nat) (l : List Op) : den sem (flattenOps b fuel l) = den sem l :=
+  den_flattenOps sem b hblock fuel l
+
+/-- **unfold keeps the unitary** (the call itself): for a point holding a block operation whose
+body is a well-formed circuit on the block's radixes, `unfold(point)` succeeds, keeps `Inv`, and
+the new circuit denotes what the old one did — in every monoid semantics where operations on
+disjoint qudits commute and a block denotes the product of its expansion.  (The proof follows the
+code: pop, then `insert_circuit` — reversed inserts at the popped cycle, or forward appends when
+that cycle was the last and vanished — and shows that in every timeline the block's place is
+taken by a linearisation of the relabelled body; `unfold_timeline`.) -/
+theorem C04_unfold_same_unitary {M : Type} [Monoid M] (sem : Op → M)
+    (hcomm : ∀ a b, Indep a b → sem a * sem b = sem b * sem a) (b : Blocks)
+    (hblock : ∀ o inner, expandOp b o = some inner → sem o = den sem inner)
+    (c : Circ) (hinv : c.Inv) (p : Int × Int) (k q0 : Nat) (o : Op) (body : Circ)
+    (hg : c.getOp p = .ok (k, q0, o)) (hbody : b.body? o.gid = some body)
+    (hbinv : body.Inv) (hfit : body.radixes = o.rad) :
+    (c.unfold b p).2 = .ok () ∧ (c.unfold b p).1.Inv ∧
+      den sem (c.unfold b p).1.iter = den sem c.iter :=
+  unfold_same_den sem hcomm b hblock c hinv p k q0 o body hg hbody hbinv hfit
+
+/-- the timeline statement behind it -/
+theorem C04_unfold_timeline (c : Circ) (hinv : c.Inv) (b : Blocks) (p : Int × Int) (k q0 : Nat)
+    (o : Op) (body : Circ) (hg : c.getOp p = .ok (k, q0, o)) (hbody : b.body? o.gid = some body)
+    (hbinv : body.Inv) (hfit : body.radixes = o.rad) :
+    ∃ (hlt : k < c.cycles.length) (inner : List Op),
+      (c.unfold b p).2 = .ok () ∧ (c.unfold b p).1.Inv ∧
+      (∀ x ∈ inner, x.loc ≠ []) ∧
+      (∀ q, proj q inner = proj q ((distribute body.iter o.par).map (·.mapLoc o.loc))) ∧
+      (∀ q, c.timeline q = proj q (c.cycles.take k).flatten ++ (if o.on q then [o] else []) ++
+        proj q (c.cycles[k].filter (fun x => !x.on q0)) ++
+          proj q (c.cycles.drop (k + 1)).flatten) ∧
+      (∀ q, (c.unfold b p).1.timeline q = proj q (c.cycles.take k).flatten ++ proj q inner ++
+        proj q (c.cycles[k].filter (fun x => !x.on q0)) ++
+          proj q (c.cycles.drop (k + 1)).flatten) :=
+  unfold_timeline c hinv b p k q0 o body hg hbody hbinv hfit
+
+-- non-vacuity: a block on (2,0) in the last cycle (the forward-append branch) and one in the
+-- middle (the reversed-insert branch)
+example :
+    let body : Circ := ⟨[2, 2], [[⟨1, [], [0], [2]⟩], [⟨6, [], [0, 1], [2, 2]⟩]]⟩
+    let b : Blocks := [(1000, body)]
+    let blk : Op := ⟨1000, [], [2, 0], [2, 2]⟩
+    let c : Circ := ⟨[2, 2, 2], [[⟨2, [], [1], [2]⟩], [blk]]⟩
+    let c2 : Circ := ⟨[2, 2, 2], [[⟨2, [], [1], [2]⟩], [blk], [⟨2, [], [0], [2]⟩]]⟩
+    c.invB = true ∧ body.invB = true ∧ c.getOp (-1, 2) = .ok (1, 2, blk) ∧
+      b.body? blk.gid = some body ∧ body.radixes = blk.rad ∧
+      (c.unfold b (-1, 2)).1.cycles =
+        [[⟨2, [], [1], [2]⟩, ⟨1, [], [2], [2]⟩], [⟨6, [], [2, 0], [2, 2]⟩]] ∧
+      c2.getOp (1, 0) = .ok (1, 0, blk) ∧
+      (c2.unfold b (1, 0)).1.cycles =
+        [[⟨2, [], [1], [2]⟩], [⟨1, [], [2], [2]⟩], [⟨6, [], [2, 0], [2, 2]⟩], [⟨2, [], [0], [2]⟩]] := by
+  decide
+
+/-- **unfold_all keeps the unitary**, for any number of rebuild rounds: for a hereditarily
+well-formed block table (`Blocks.HF`: every body is an `Inv` circuit whose own block operations
+stand on the radixes of their bodies) and a circuit whose block operations fit (`Fits`), every
+round keeps `Inv`, keeps the blocks fitting, and is one level of flattening up to commutation
+(`unfoldRound_same_den`), so the denotation never changes. -/
+theorem C04_unfold_all_same_unitary {M : Type} [Monoid M] (sem : Op → M)
+    (hcomm : ∀ a b, Indep a b → sem a * sem b = sem b * sem a) (b : Blocks) (hb : b.HF)
+    (hblock : ∀ o inner, expandOp b o = some inner → sem o = den sem inner)
+    (fuel : Nat) (c : Circ) (hinv : c.Inv) (hfit : Fits b c) :
+    (c.unfoldAll b fuel).Inv ∧ den sem (c.unfoldAll b fuel).iter = den sem c.iter :=
+  unfoldAll_same_den sem hcomm b hb hblock fuel c hinv hfit
+
+-- non-vacuity: a hereditarily well-formed table and a fitting circuit that really unfolds
+example :
+    let body : Circ := ⟨[2, 2], [[⟨1, [], [0], [2]⟩], [⟨6, [], [0, 1], [2, 2]⟩]]⟩
+    Blocks.HF [(1000, body)] := by
+  intro body gid bd h
+  simp only [Blocks.body?, List.find?_cons, List.find?_nil] at h
+  split at h
+  · simp only [Option.map_some, Option.some.injEq] at h
+    subst h
+    refine ⟨(invB_iff _).1 (by decide), ?_⟩
+    intro o ho bd' hb'
+    simp only [body, Circ.ops, List.flatten_cons, List.flatten_nil, List.cons_append,
+      List.nil_append, List.mem_cons, List.not_mem_nil, or_false] at ho
+    rcases ho with rfl | rfl <;> simp [Blocks.body?] at hb'
+  · simp at h
+example :
+    let body : Circ := ⟨[2, 2], [[⟨1, [], [0], [2]⟩], [⟨6, [], [0, 1], [2, 2]⟩]]⟩
+    let b : Blocks := [(1000, body)]
+    let c : Circ := ⟨[2, 2, 2], [[⟨2, [], [1], [2]⟩], [⟨1000, [], [2, 0], [2, 2]⟩]]⟩
+    c.invB = true ∧ (c.ops.all fun o => match b.body? o.gid with
+        | some bd => bd.radixes == o.rad
+        | none => true) = true ∧
+      (c.unfoldAll b 3).cycles =
+        [[⟨2, [], [1], [2]⟩, ⟨1, [], [2], [2]⟩], [⟨6, [], [2, 0], [2, 2]⟩]] := by decide
+
+/-- **append_circuit**: when every relabelled operation of the sub-circuit is accepted
+(`check_valid_operation`), the call succeeds and each timeline gains, at its end, the qudit's part
+of the sub-circuit's operations in iteration order, relabelled through `location`. -/
+theorem C04_append_circuit_timeline (c sub : Circ) (loc : List Nat)
+    (hlen : sub.numQudits = loc.length)
+    (hv : ∀ x ∈ sub.iter, c.checkValid (x.mapLoc loc) = .ok ()) (q : Nat) :
+    (c.appendCircuit sub loc).2 = .ok () ∧
+      (c.appendCircuit sub loc).1.timeline q =
+        c.timeline q ++ proj q (sub.iter.map (·.mapLoc loc)) := by
+  rw [appendCircuit_eq c sub loc hlen]
+  exact append_fold_timeline _ c (by
+    intro y hy
+    rw [List.mem_map] at hy
+    obtain ⟨x, hx, rfl⟩ := hy
+    exact hv x hx) q
+
+/-- **insert_circuit** at an in-range non-negative cycle `k`: the sub-circuit's operations (the
+code inserts them one by one in REVERSED order at `k`, so they end up in forward order) come
+after everything in cycles `< k` and before everything in cycles `≥ k`. -/
+theorem C04_insert_circuit_timeline (c sub : Circ) (loc : List Nat) (k : Nat)
+    (hlen : sub.numQudits = loc.length) (hk : k < c.numCycles)
+    (hv : ∀ x ∈ sub.iterRev, c.checkValid (x.mapLoc loc) = .ok ()) (q : Nat) :
+    (c.insertCircuit (k : Int) sub loc).2 = .ok () ∧
+      (c.insertCircuit (k : Int) sub loc).1.timeline q =
+        proj q (c.cycles.take k).flatten ++ proj q (sub.iterRev.reverse.map (·.mapLoc loc)) ++
+          proj q (c.cycles.drop k).flatten := by
+  rw [insertCircuit_eq_lt c sub loc k hlen hk, List.map_reverse]
+  exact insert_fold_timeline k _ c hk (by
+    intro y hy
+    rw [List.mem_map] at hy
+    obtain ⟨x, hx, rfl⟩ := hy
+    exact hv x hx) q
 
 end BqVerif.C04
